@@ -226,6 +226,12 @@ fire("C03", "trimming ignored by one forward map", "R3.trim-honoured-by-transfor
       "        rf_array = -self._R * np.log((x + 1) / 2) + self._rmin\n"))
 fire("C03", "negative infinity no longer replaced", "R3.convert-inf-two-sided",
      ("sub", "rtransform.py", "            new_v[new_v == -np.inf] = -replace_inf\n", ""))
+silent("C03", "third inverse derivative re-factored through the lower ones (algebraically equal)",
+       ("sub", "rtransform.py", "        return (3 * d2(r) ** 2 - d1(r) * d3(r)) / self._d1(r) ** 5\n",
+        "        dx = 1 / self._d1(r)\n        d2x = -d2(r) * dx**3\n        return -d3(r) * dx**4 - 3 * d2(r) * dx**2 * d2x\n"))
+fire("C03", "third inverse derivative re-factored with a sign slip", "R1.inverse-formulas-agree",
+     ("sub", "rtransform.py", "        return (3 * d2(r) ** 2 - d1(r) * d3(r)) / self._d1(r) ** 5\n",
+      "        dx = 1 / self._d1(r)\n        d2x = -d2(r) * dx**3\n        return -d3(r) * dx**4 + 3 * d2(r) * dx**2 * d2x\n"))
 silent("C03", "commutative reordering in one copy",
        ("sub", "rtransform.py", "        return (3 * d2**2 - d1 * d3) / d1**5\n", "        return (d2**2 * 3 - d3 * d1) / d1**5\n"))
 silent("C03", "trimming written as a conditional expression",
